@@ -1,6 +1,6 @@
 (** extraction of the C09 model (sign tables regenerated from the source + specs) *)
 Require Import FastZ.
-From Dashu Require Import Base.Prelude Base.Words Int.BitsSpec Int.BitsWords.
+From Dashu Require Import Base.Prelude Base.Words Int.BitsSpec Int.BitsWords Int.BitsKernels.
 From DashuGen Require Import SignTables.
 Extraction "model.ml"
   signed sign_of
@@ -9,4 +9,10 @@ Extraction "model.ml"
   bit_len_spec set_bit_spec clear_bit_spec trailing_zeros_spec trailing_ones_spec
   count_ones_spec count_zeros_spec split_bits_spec clear_high_bits_spec
   is_power_of_two_spec next_power_of_two_spec ones_spec
-  to_words trailing_zeros_large trailing_ones_large bit_large.
+  to_words trailing_zeros_large trailing_ones_large bit_large
+  to_brepr bvalue repr_bitand repr_bitor repr_bitxor repr_and_not
+  ibig_bitand_asis ibig_bitor_asis ibig_bitxor_asis
+  repr_shl repr_shl_ref repr_shr repr_shr_ref ibig_shr_asis ibig_shr_ref_asis ibig_shl_asis are_low_bits_nonzero
+  repr_ones repr_bit ibig_bit repr_trailing_zeros repr_set_bit repr_clear_bit repr_clear_high_bits repr_split_bits
+  repr_trailing_ones ibig_trailing_ones
+  repr_bit_len repr_count_ones repr_count_zeros repr_is_power_of_two repr_next_power_of_two.
